@@ -355,7 +355,13 @@ fn really_works(rng: &mut Rng, k: usize, r: usize, out: &mut CaseOut, thorough: 
                             (a, b)
                         };
                         let order = gen::add_order(rng, &oi, &ri, false);
-                        let mut dec = codec::make_dec(api, k, r, size, None).map_err(|e| format!("new decoder: {e}"))?;
+                        // a fresh decoder (maximum loss), or one that got here by reset
+                        // after an abandoned round of another configuration
+                        let mut dec = if t >= 1 {
+                            crate::mon_c01::preused_decoder(rng, api, rate, k, r, size).map_err(|e| format!("reset to the configuration: {e}"))?
+                        } else {
+                            codec::make_dec(api, k, r, size, None).map_err(|e| format!("new decoder: {e}"))?
+                        };
                         let obs = codec::decode_round(dec.as_mut(), &order, &originals, &recovery, &[]).map_err(|e| format!("decode: {e}"))?;
                         if obs.iter != expected(&originals, &oi) {
                             return Err("restored shards are wrong".into());
